@@ -31,6 +31,8 @@ type namedTerm struct {
 }
 
 type Session struct {
+	runMode string // contract mode in which the function under proof is being verified
+	topContract *Contract // contract of the function under proof
 	curTag     int   // >0: assertions made now belong to the body of this isolated loop (header block index + 1)
 	assertTags []int // per assertion: owning isolated loop body (0 = none)
 	reqEnd  int        // number of assertions after the requires of the function under proof were assumed
